@@ -417,7 +417,7 @@ def scipp_pow_supported(dtype: str) -> bool:
 
 #: operands the *formula* squares (E = m L^2 / 2 t^2, E = h^2 / 2 m lambda^2, Delta E: L1^2, L2^2)
 SQUARED = {
-    'energy_from_tof': ['tof', 'Ltotal'], 'energy_from_wavelength': ['wavelength'],
+    'energy_from_wavelength': ['wavelength'],
     'energy_transfer_direct_from_tof': ['L1', 'L2'], 'energy_transfer_indirect_from_tof': ['L1', 'L2'],
 }
 
